@@ -164,6 +164,7 @@ class Driver:
                 v += ["lri", "lru", "lri-aged", "lru-aged", "ordereddict"] + (["keysgetitem"] if n != "ctor" else [])
                 if n == "update" and self.name.startswith("str-keys"):
                     v.append("kw")
+                    v.append("self+kw")             # the cache itself as the source (nothing to take) plus keyword items
                     if len(op["arg"]) >= 2:
                         v.append("dict+kw")         # one call mixing a mapping and keyword items
             if n == "update":
@@ -213,6 +214,8 @@ class Driver:
                 form = variant or "pairs"
                 if form == "kw":
                     c.update((), **{K(p["k"]): V(p["v"]) for p in op["arg"]})
+                elif form == "self+kw":
+                    c.update(c, **{K(p["k"]): V(p["v"]) for p in op["arg"]})
                 elif form == "dict+kw":
                     h = len(op["arg"]) // 2
                     c.update({K(p["k"]): V(p["v"]) for p in op["arg"][:h]}, **{K(p["k"]): V(p["v"]) for p in op["arg"][h:]})
